@@ -51,9 +51,9 @@ def run(ctx, rep):
     n = borrow(rep, ctx, C02, lambda o: o.rule == "C02.c", "C10.b")
     rep.floor("C10.b", "borrowed obligations", n, 5)
     n = borrow(rep, ctx, C02, lambda o: o.rule == "C02.d" and (("/executor/" in o.key and ("/deferred/" in o.key or "Undecided" in o.key)) or "filter_index_files" in o.key), "C10.c")
-    rep.floor("C10.c", "borrowed obligations", n, 6)
+    rep.floor("C10.c", "borrowed obligations", n, 4)
     n = borrow(rep, ctx, C03, lambda o: o.rule == "R-ORDER" and re.search(r"/R-ORDER/(13|13b|14)/", o.key), "C10.e")
-    rep.floor("C10.e", "borrowed obligations", n, 6)
+    rep.floor("C10.e", "borrowed obligations", n, 4)
     # ---- C10.d -------------------------------------------------------------------------------------
     NW = prog.find1(r"^rustic_core::commands::prune::PrunePlan::new$")
     fam = [NW] + prog.closures_of(NW)
